@@ -293,6 +293,7 @@ class World(object):
         self.cur = [None] * self.naddr    # current connection index per address
         self.reqs = []
         self.calls = []
+        self.reentered = False
         self.obs = ObsLog(self.clock)  # THE observation log (ordered, written at event time)
         self.hist = []
         self.step = 0
@@ -460,6 +461,16 @@ class World(object):
             def ok(v, r=r):
                 r.fires.append((w.step, 'ok', _valcanon(v), False))
                 w.obs.append(('fire', r.idx, 'ok', _valcanon(v), False))
+                # optional: the application calls the API again from inside this callback (once per world)
+                if r.kind in w.cfg.get('reenter', ()) and not w.reentered and r.call_step < w.step:
+                    w.reentered = True
+                    w.obs.append(('reenter', r.idx, r.kind))
+                    if r.kind == 'pub':
+                        w.ev_pub(r.addr, r.qos or 1)
+                    elif r.kind == 'sub':
+                        w.ev_sub(r.addr, 'str')
+                    elif r.kind == 'unsub':
+                        w.ev_unsub(r.addr, 'str')
 
             def err(f, r=r):
                 c = w.conns[r.conn]
@@ -545,6 +556,8 @@ class World(object):
                 body = 'm%d' % r.idx
             elif pkind == 'big':
                 body = 'm%d' % r.idx + 'x' * 1000
+            elif pkind == 'huge':
+                body = 'm%d' % r.idx + 'y' * 20000
             else:
                 body = PAYLOADS[pkind].decode('latin-1')
             if payload_type == 'bytearray':
@@ -890,6 +903,7 @@ def canon_world(w):
     calls = sorted(w.pending_calls(), key=lambda c: c.getTime())    # stable: ties keep insertion order
     root.append(tuple(cv(c) for c in calls))
     root.append(w.jitter)
+    root.append(w.reentered)
     return tuple(root)
 
 
